@@ -26,9 +26,25 @@ type DanglingEvent struct {
 }
 
 type Watch struct {
-	mu     sync.Mutex
-	events []DanglingEvent
-	limits []DanglingEvent // submissions refused for carrying more ports than multiport takes
+	mu       sync.Mutex
+	events   []DanglingEvent
+	limits   []DanglingEvent // submissions refused for carrying more ports than multiport takes
+	hookDels []HookDel       // DeleteRule calls on GLX-INGRESS / GLX-EGRESS that removed a rule
+}
+
+// HookDel: one DeleteRule on a hook chain (GLX-INGRESS / GLX-EGRESS) that named a rule present at that moment.
+type HookDel struct {
+	Chain string
+	Rule  []string // normalised words
+}
+
+// TakeHookDels returns and clears the recorded hook deletions.
+func (w *Watch) TakeHookDels() []HookDel {
+	w.mu.Lock()
+	defer w.mu.Unlock()
+	out := w.hookDels
+	w.hookDels = nil
+	return out
 }
 
 // TakeLimits returns and clears the refused-for-too-many-ports submissions.
@@ -162,6 +178,17 @@ func (x *WatchIPT) EnsureRule(p utiliptables.RulePosition, t utiliptables.Table,
 
 func (x *WatchIPT) DeleteRule(t utiliptables.Table, c utiliptables.Chain, args ...string) error {
 	x.inspectCmd("delete-rule", t, c, args, false)
+	if t == utiliptables.TableFilter && unorderedChain(string(c)) {
+		want := strings.Join(nf.Normalize(args), " ")
+		for _, r := range x.ipt.Dump("filter")[string(c)] {
+			if strings.Join(r, " ") == want {
+				x.w.mu.Lock()
+				x.w.hookDels = append(x.w.hookDels, HookDel{string(c), nf.Normalize(args)})
+				x.w.mu.Unlock()
+				break
+			}
+		}
+	}
 	return x.Interface.DeleteRule(t, c, args...)
 }
 
